@@ -219,7 +219,8 @@ func writeExpr(b *strings.Builder, e Expr, st PrintStyle) {
 			}
 		}
 		if l, ok := e.X.(*Lit); ok && strings.HasPrefix(l.Src, "0x") {
-			// hexadecimal literals take no sign: write the negation with parentheses
+			// written with parentheses (the form without them, -0x1F, is valid too: the minus is the unary operator;
+			// C01 has cells of its own for it, see the known finding)
 			b.WriteString("(" + l.Src + ")")
 			return
 		}
